@@ -42,6 +42,11 @@ def ring_index_rule(ctx, rid, fn, spec):
             continue
         if in_region is True:
             continue
+        if ob["kind"] in ("cursor-exit", "cursor-advance"):
+            if ob["kind"] == "cursor-exit":
+                nviol += 1
+                ctx.bad(rid, key(fn, "cursor-exit:" + ob["storage"]), fn.where(ob["node"]), "cursor `%s` may leave the function outside [0, %s)" % (ob["storage"], spec.length))
+            continue
         idx = fn.canon(ob["index"], subst=False)
         k = key(fn, "%s[%s]" % (ob["storage"], idx))
         if ob["kind"] == "offset-raw" or ob["kind"] == "offset-nostride":
@@ -175,7 +180,7 @@ def run(ctx):
         g = paths.guarded(push, ninc[0]["node"], lambda f, c, pol: (not pol) and f.canon(c, subst=False).startswith("ep_full("))
         ctx.check(r3b, g, key(push, "n++-iff-not-full"), push.where(ninc[0]["node"]), "n++ in ep_push is not guarded by !ep_full()")
     # same index for frame and flag
-    subs = [o for o in ring.analyse(push, SPEC)]
+    subs = [o for o in ring.analyse(push, SPEC) if o["kind"] in ("subscript", "offset")]
     idxs = set(push.canon(o["index"]) for o in subs)
     want_idx = None
     for o in subs:
